@@ -3,9 +3,9 @@ package jmespath
 // C20: equality is a deep, type-strict equivalence and truthiness is uniform.
 
 func c20Spec() {
-	vrtSpec(2, 2, 1, "a,b", smASCII, nfInt|nfDot|nfFrac, 0)
+	vrtSpec(tq(2, 3), 2, 1, "a,b", smASCII, nfInt|nfDot|nfFrac, 0)
 	vrtNumRange(-1, 2)
-	vrtNested(1)
+	vrtNested(tq(1, 2))
 }
 
 func c20Eq(x, y any) bool {
